@@ -48,6 +48,9 @@ CORE_EXPRS = [
     "[1, 2, 3]", "[\"\"]", "[[], []]", "[true]", "[1, 1]", "[1, 2, 3, 4]", "[1, 2, 3, 5]", "[4, 3, 2, 1]", "[1, 2, 3, 4, 5]",
     "[1, 2, 3, 4]", "[0, 9, 9, 9, 9]", "[\"a\", \"b\", \"c\", \"d\"]", "[\"a\", \"b\", \"c\", \"e\"]",
     "0 0 aset", "0 1 aset", "1 3 aset", "0 1 aset 2 3 aset add", "0 3 aset", "1 3 aset", "0 1 aset 2 4 aset add", "5 9 aset",
+    # sets with the same runs at the same starts that differ in the length of one run (first, middle, last)
+    "0 2 aset 4 add", "0 1 aset 4 add", "0 2 aset 4 6 aset add 9 add", "0 1 aset 4 6 aset add 9 add", "0 2 aset 4 7 aset add 9 add",
+    "0 2 aset 4 6 aset add 9 11 aset add", "0x10 0x30 aset", "0x20 0x30 aset",
 ]
 
 DW_EXPRS = [
@@ -123,7 +126,9 @@ def core_cmp(a, b):
                 return c
         return 0
     if t == "as":
-        return None
+        # (how address sets are ordered is not documented; that two of them are equal exactly when they are the same
+        # set of addresses is)
+        return 0 if a["r"] == b["r"] else "ne"
     return None
 
 
@@ -187,7 +192,7 @@ def check_pool(ev, desc, pool, m, rnd, exclude_die_routes=True):
             c = core_cmp(pool[i], pool[j])
             if c == "ne":
                 if eq[i][j]:
-                    viol("different constants of one domain compare equal", [i, j])
+                    viol("different %s compare equal" % ("address sets" if types[i] == "as" else "constants of one domain"), [i, j])
             elif c is not None:
                 if (c == 0) != eq[i][j] or (c < 0) != lt[i][j]:
                     viol("documented order: expected %s" % ("==" if c == 0 else "<" if c < 0 else ">"), [i, j])
